@@ -2,7 +2,14 @@ import RodbusModel.Model.Lifecycle
 import RodbusModel.Spec.Lifecycle
 /-
   `life` suite: model output for
-  life r<min>.<max> m<maxto> t<timeout> <behaviours> <stops>
+  life r<min>.<max> m<maxto> t<timeout> [tls:]<behaviours> <stops>
+
+  behaviours: refuse | close | garbage | silent | serve, and (TLS mode only) hsclose | hsgarbage |
+  hscert — three ways of making the handshake fail after the TCP connect succeeded, all of them
+  the model's `Behaviour.hsfail`.  The `tls:` prefix selects the TLS client in the harness; the
+  model is the same task.
+  stops: `,`-joined; a stop is `-` or `+`-joined actions E D S X R L<level>; `<stop>*<n>` stands
+  for `n` copies of the stop, `<behaviour>*<n>` for `n` attempts with that behaviour.
 -/
 namespace Rodbus.Driver
 open Rodbus.Life
@@ -14,6 +21,7 @@ def stStr : St → String
 def actStr : Action → String
   | .enable => "a:E" | .disable => "a:D" | .shutdown => "a:S" | .dropAll => "a:X"
   | .request id => s!"a:R{id}"
+  | .setDecode l => s!"a:L{l}"
 
 def evStr : Ev → String
   | .gate s => "g:" ++ stStr s
@@ -23,7 +31,15 @@ def evStr : Ev → String
 
 def parseBehaviour (s : String) : Behaviour :=
   if s = "refuse" then .refuse else if s = "close" then .close else if s = "garbage" then .garbage
-  else if s = "silent" then .silent else .serve
+  else if s = "silent" then .silent
+  else if s = "hsclose" ∨ s = "hsgarbage" ∨ s = "hscert" then .hsfail else .serve
+
+/-- `<stop>*<n>` / `<behaviour>*<n>`: `n` copies of the stop / `n` attempts with the behaviour -/
+def expandStops (stops : List String) : List String :=
+  stops.flatMap fun st =>
+    match st.splitOn "*" with
+    | [x, n] => List.replicate (n.toNat?.getD 1) x
+    | _ => [st]
 
 /-- request ids are assigned in submission order (`R` actions performed while a handle exists) -/
 def parseStops (stops : List String) : List (List Action) :=
@@ -38,6 +54,8 @@ def parseStops (stops : List String) : List (List Action) :=
           else if a = "S" then (l ++ [.shutdown], n, alive)
           else if a = "X" then (l ++ [.dropAll], n, false)
           else if a = "R" then (if alive then (l ++ [.request (n + 1)], n + 1, alive) else (l, n, alive))
+          else if a.startsWith "L" then
+            (l ++ [.setDecode ((String.ofList a.toList.tail).toNat?.getD 0)], n, alive)
           else (l, n, alive)) ([], n, alive)
       acts :: go n' alive' rest
   go 0 true stops
@@ -49,8 +67,9 @@ def runLife (tok : List String) : String × String :=
     let rmin := (rr.getD 0 "0").toNat?.getD 0
     let rmax := (rr.getD 1 "0").toNat?.getD 0
     let maxto := (String.ofList m.toList.tail).toNat?.getD 0
-    let behaviours := (bs.splitOn "/").map parseBehaviour
-    let script := if stops = "-" then [] else parseStops (stops.splitOn ",")
+    let bs := if bs.startsWith "tls:" then String.ofList (bs.toList.drop 4) else bs
+    let behaviours := (expandStops (bs.splitOn "/")).map parseBehaviour
+    let script := if stops = "-" then [] else parseStops (expandStops (stops.splitOn ","))
     let s0 : S := { retry := Retry.create rmin rmax, behaviours := behaviours, maxto := maxto }
     let (s1, p1) := start s0
     let (s2, _) := runStops s1 p1 (script ++ [[], []])
